@@ -105,6 +105,279 @@ ctl('j2-use-before-joined-test', 'C04', 'J2', RT,
 	respond.Send(&hagallpb.EntityComponentTypeAddResponse{''',
     'HandleEntityComponentTypeAdd')
 
+
+VJ = 'modules/vikja/vikja.go'
+OD = 'modules/odal/odal.go'
+# ---- relays
+ctl('c1-change-not-relayed', 'C02', 'C1', RT,
+    """	session.RemoveEntity(entity)
+	participant.RemoveEntity(entity)
+
+	respond.Send(&hagallpb.EntityDeleteResponse{
+		Type:      hagallpb.MsgType_MSG_TYPE_ENTITY_DELETE_RESPONSE,
+		Timestamp: now,
+		RequestId: req.RequestId,
+	})
+
+	h.FeatureFlags.IfNotSet(featureflag.FlagDisableEntityDeleteBroadcast, func() {
+		session.Broadcast(participant, &hagallpb.EntityDeleteBroadcast{
+			Type:            hagallpb.MsgType_MSG_TYPE_ENTITY_DELETE_BROADCAST,
+			Timestamp:       now,
+			OriginTimestamp: req.Timestamp,
+			EntityId:        entity.ID,
+		})
+	})
+""",
+    """	session.RemoveEntity(entity)
+	participant.RemoveEntity(entity)
+
+	respond.Send(&hagallpb.EntityDeleteResponse{
+		Type:      hagallpb.MsgType_MSG_TYPE_ENTITY_DELETE_RESPONSE,
+		Timestamp: now,
+		RequestId: req.RequestId,
+	})
+""", 'HandleEntityDelete', 'entity deletion no longer relayed')
+ctl('c1-relayed-twice', 'C02', 'C1', VJ,
+    """	session.Broadcast(participant, &vikjapb.EntityActionBroadcast{""",
+    """	session.Broadcast(participant, &vikjapb.EntityActionBroadcast{
+		Type:            vikjapb.MsgType_MSG_TYPE_VIKJA_ENTITY_ACTION_BROADCAST,
+		Timestamp:       now,
+		OriginTimestamp: req.Timestamp,
+		EntityAction:    entityAction,
+	})
+	session.Broadcast(participant, &vikjapb.EntityActionBroadcast{""", 'handleSetEntityAction')
+ctl('c1-relay-before-change', 'C02', 'C1', RT,
+    """	entity.SetPose(models.Pose{
+		PX: update.Pose.Px,
+		PY: update.Pose.Py,
+		PZ: update.Pose.Pz,
+		RX: update.Pose.Rx,
+		RY: update.Pose.Ry,
+		RZ: update.Pose.Rz,
+		RW: update.Pose.Rw,
+	})
+
+	h.FeatureFlags.IfNotSet(featureflag.FlagDisableEntityUpdatePoseBroadcast, func() {
+		session.Broadcast(participant, &hagallpb.EntityUpdatePoseBroadcast{
+			Type:            hagallpb.MsgType_MSG_TYPE_ENTITY_UPDATE_POSE_BROADCAST,
+			Timestamp:       timestamppb.Now(),
+			OriginTimestamp: update.Timestamp,
+			EntityId:        entity.ID,
+			Pose:            entity.Pose().ToProtobuf(),
+		})
+	})
+""",
+    """	h.FeatureFlags.IfNotSet(featureflag.FlagDisableEntityUpdatePoseBroadcast, func() {
+		session.Broadcast(participant, &hagallpb.EntityUpdatePoseBroadcast{
+			Type:            hagallpb.MsgType_MSG_TYPE_ENTITY_UPDATE_POSE_BROADCAST,
+			Timestamp:       timestamppb.Now(),
+			OriginTimestamp: update.Timestamp,
+			EntityId:        entity.ID,
+			Pose:            entity.Pose().ToProtobuf(),
+		})
+	})
+
+	entity.SetPose(models.Pose{
+		PX: update.Pose.Px,
+		PY: update.Pose.Py,
+		PZ: update.Pose.Pz,
+		RX: update.Pose.Rx,
+		RY: update.Pose.Ry,
+		RZ: update.Pose.Rz,
+		RW: update.Pose.Rw,
+	})
+""", 'HandleEntityUpdatePose', 'stale pose relayed: the relay precedes the change')
+ctl('c2-sender-not-excluded', 'C02', 'C2', OD,
+    """	session.Broadcast(participant, &odalpb.AssetInstanceAddBroadcast{""",
+    """	session.Broadcast(nil, &odalpb.AssetInstanceAddBroadcast{""", 'handleAssetInstanceAdd')
+# ---- flags
+ctl('c4-wrong-flag', 'C17', 'C4b', RT,
+    """	h.FeatureFlags.IfNotSet(featureflag.FlagDisableEntityAddBroadcast, func() {""",
+    """	h.FeatureFlags.IfNotSet(featureflag.FlagDisableEntityDeleteBroadcast, func() {""", 'HandleEntityAdd')
+ctl('c4-unflagged-emission', 'C17', 'C4b', RT,
+    """	h.FeatureFlags.IfNotSet(featureflag.FlagDisableParticipantLeaveBroadcast, func() {
+		session.Broadcast(participant, &hagallpb.ParticipantLeaveBroadcast{
+			Type:            hagallpb.MsgType_MSG_TYPE_PARTICIPANT_LEAVE_BROADCAST,
+			Timestamp:       now,
+			OriginTimestamp: now,
+			ParticipantId:   participant.ID,
+		})
+	})""",
+    """	session.Broadcast(participant, &hagallpb.ParticipantLeaveBroadcast{
+		Type:            hagallpb.MsgType_MSG_TYPE_PARTICIPANT_LEAVE_BROADCAST,
+		Timestamp:       now,
+		OriginTimestamp: now,
+		ParticipantId:   participant.ID,
+	})""", 'leaveSession')
+ctl('c4-state-change-under-flag', 'C17', 'C4c', RT,
+    """	session.AddEntity(entity)
+	participant.AddEntity(entity)
+
+	now := timestamppb.Now()
+""",
+    """	participant.AddEntity(entity)
+
+	now := timestamppb.Now()
+	h.FeatureFlags.IfNotSet(featureflag.FlagDisableEntityAddBroadcast, func() {
+		session.AddEntity(entity)
+	})
+""", 'HandleEntityAdd', 'state change made to depend on the flag')
+ctl('c4-flag-read-elsewhere', 'C17', 'C4d', RT,
+    """	if len(customMessage.Body) > customMessageMaxSize {""",
+    """	if _, off := h.FeatureFlags[featureflag.FlagDisableCustomMessageBroadcast]; off {
+		return nil
+	}
+	if len(customMessage.Body) > customMessageMaxSize {""", 'HandleCustomMessage')
+ctl('c4-ifnotset-inverted', 'C17', 'C4e', 'featureflag/featureflag.go',
+    """func (f FeatureFlag) IfNotSet(flag Flag, do func()) {
+	if _, ok := f[flag]; ok {""",
+    """func (f FeatureFlag) IfNotSet(flag Flag, do func()) {
+	if _, ok := f[flag]; !ok {""", 'IfNotSet')
+# ---- notifications
+ctl('c5-add-not-gated', 'C13', 'C5', RT,
+    """		session.GetEntityComponents().Notify(entityComponent.EntityComponentTypeId, func(participantIDs []uint32) {
+			session.Broadcast(participant, &hagallpb.EntityComponentAddBroadcast{
+				Type:            hagallpb.MsgType_MSG_TYPE_ENTITY_COMPONENT_ADD_BROADCAST,
+				Timestamp:       now,
+				OriginTimestamp: req.Timestamp,
+				EntityComponent: &entityComponent,
+			})
+		})""",
+    """		session.Broadcast(participant, &hagallpb.EntityComponentAddBroadcast{
+			Type:            hagallpb.MsgType_MSG_TYPE_ENTITY_COMPONENT_ADD_BROADCAST,
+			Timestamp:       now,
+			OriginTimestamp: req.Timestamp,
+			EntityComponent: &entityComponent,
+		})""", 'HandleEntityComponentAdd')
+ctl('c5-update-to-everyone', 'C13', 'C5', RT,
+    """			session.BroadcastTo(participant, &hagallpb.EntityComponentUpdateBroadcast{
+				Type:            hagallpb.MsgType_MSG_TYPE_ENTITY_COMPONENT_UPDATE_BROADCAST,
+				Timestamp:       timestamppb.Now(),
+				OriginTimestamp: req.Timestamp,
+				EntityComponent: &entityComponent,
+			}, participantIDs...)""",
+    """			session.Broadcast(participant, &hagallpb.EntityComponentUpdateBroadcast{
+				Type:            hagallpb.MsgType_MSG_TYPE_ENTITY_COMPONENT_UPDATE_BROADCAST,
+				Timestamp:       timestamppb.Now(),
+				OriginTimestamp: req.Timestamp,
+				EntityComponent: &entityComponent,
+			})""", 'HandleEntityComponentUpdate')
+ctl('c5-notify-wrong-type', 'C13', 'C5', RT,
+    """		session.GetEntityComponents().Notify(req.EntityComponentTypeId, func(participantIDs []uint32) {
+			session.Broadcast(participant, &hagallpb.EntityComponentDeleteBroadcast{""",
+    """		session.GetEntityComponents().Notify(req.EntityId, func(participantIDs []uint32) {
+			session.Broadcast(participant, &hagallpb.EntityComponentDeleteBroadcast{""", 'HandleEntityComponentDelete')
+# ---- ownership
+ctl('d1-guard-compares-entity-id', 'C05', 'D1', RT,
+    """	if entity.ParticipantID != participant.ID {
+		respond.Send(&hagallpb.ErrorResponse{""",
+    """	if entity.ID != participant.ID {
+		respond.Send(&hagallpb.ErrorResponse{""", 'HandleEntityDelete')
+ctl('d1-pose-guard-removed', 'C05', 'D1', RT,
+    """	if entity.ParticipantID != participant.ID {
+		return nil
+	}
+
+	entity.SetPose(""",
+    """	entity.SetPose(""", 'HandleEntityUpdatePose')
+ctl('e4-components-not-dropped', 'C12', 'E4', RT,
+    """	session.GetEntityComponents().DeleteByEntityID(entity.ID)
+	session.RemoveEntity(entity)
+	participant.RemoveEntity(entity)""",
+    """	session.RemoveEntity(entity)
+	participant.RemoveEntity(entity)""", 'HandleEntityDelete')
+# ---- leaving
+ctl('e1-persist-flipped', 'C06', 'E1', RT,
+    """		if !ok || entity.Persist {
+			continue
+		}""",
+    """		if !ok || !entity.Persist {
+			continue
+		}""", 'leaveSession')
+ctl('e1-subscriptions-kept', 'C06', 'E1', RT,
+    """	session.GetEntityComponents().UnsubscribeByParticipant(participant.ID)
+
+""", "\n", 'leaveSession:unsubscribe')
+ctl('e1-session-never-ends', 'C07', 'E1', RT,
+    """	if session.ParticipantCount() == 0 {
+		// Here we use""",
+    """	if session.ParticipantCount() == 1 {
+		// Here we use""", 'leaveSession')
+ctl('e1-modules-not-told', 'C06', 'E1', RT,
+    """	for _, m := range h.Modules {
+		m.HandleDisconnect()
+	}
+""", "", 'leaveSession:modules-told')
+ctl('e2-disconnect-does-not-leave', 'C06', 'E2', RT,
+    """func (h *RealtimeHandler) HandleDisconnect(_ error) {
+	if h.currentParticipant != nil {
+		h.leaveSession()
+	}
+}""",
+    """func (h *RealtimeHandler) HandleDisconnect(_ error) {
+}""", 'disconnect-leaves')
+ctl('e3-module-keeps-nonpersistent', 'C06', 'E3', VJ,
+    """		if entity, ok := m.currentSession.EntityByID(entityID); !ok || !entity.Persist {
+			m.state.RemoveEntityActions(entityID)""",
+    """		if entity, ok := m.currentSession.EntityByID(entityID); !ok && !entity.Persist {
+			m.state.RemoveEntityActions(entityID)""", 'vikja')
+ctl('e3-module-delete-inverted', 'C06', 'E3', OD,
+    """	if _, ok := m.currentSession.EntityByID(req.EntityId); !ok {
+		m.state.RemoveAssetInstance(req.EntityId)""",
+    """	if _, ok := m.currentSession.EntityByID(req.EntityId); ok {
+		m.state.RemoveAssetInstance(req.EntityId)""", 'odal')
+ctl('e9-participant-not-cleared', 'C03', 'E9', RT,
+    """	h.currentParticipant = nil
+	h.currentSession = nil
+}""",
+    """	h.currentSession = nil
+}""", 'leaveSession')
+# ---- dispatch / decorators
+ctl('a1-arm-removed', 'C04', 'A1', 'websocket/handler.go',
+    """	case hagallpb.MsgType_MSG_TYPE_ENTITY_COMPONENT_LIST_REQUEST:
+		err = h.Handler.HandleEntityComponentList(ctx, responder, msg)
+
+""", "", 'MSG_TYPE_ENTITY_COMPONENT_LIST_REQUEST')
+ctl('a1-modules-before-joined-test', 'C03', 'A1', 'websocket/handler.go',
+    """	if h.Handler.CurrentParticipant() == nil || h.Handler.CurrentSession() == nil {
+		return nil
+	}
+
+	for _, m := range h.Handler.GetModules() {""",
+    """	for _, m := range h.Handler.GetModules() {""", 'modules-joined')
+ctl('a1-module-gate-removed', 'C03', 'A1', RT,
+    """	if h.CurrentParticipant() == nil || h.CurrentSession() == nil {
+		return nil
+	}
+
+	err := m.HandleMsg(ctx, respond, msg)""",
+    """	err := m.HandleMsg(ctx, respond, msg)""", 'HandleWithModule')
+ctl('a2-decorator-swallows-disconnect', 'C06', 'A2', 'websocket/logs.go',
+    """func (h *handlerWithLogs) HandleDisconnect(err error) {
+	h.Handler.HandleDisconnect(err)
+""",
+    """func (h *handlerWithLogs) HandleDisconnect(err error) {
+""", 'handlerWithLogs).HandleDisconnect')
+ctl('a2-decorator-drops-error', 'C04', 'A2', 'websocket/metrics.go',
+    """	err := f()
+	if errors.IsType(err, hwebsocket.ErrTypeMsgSkip) {
+		return err
+	}""",
+    """	err := f()
+	if errors.IsType(err, hwebsocket.ErrTypeMsgSkip) {
+		return nil
+	}""", 'handlerWithMetrics')
+ctl('a2-receiver-called-twice', 'C08', 'A2', 'websocket/metrics.go',
+    """		msg, n, err := receive()
+		if err != nil {
+			wsReceiveError.""",
+    """		msg, n, err := receive()
+		if err != nil {
+			msg, n, err = receive()
+		}
+		if err != nil {
+			wsReceiveError.""", 'handlerWithMetrics).Receiver')
+
 os.makedirs(OUT, exist_ok=True)
 bad = 0
 names = set()
